@@ -881,3 +881,200 @@ Proof.
   intros c Hwf. destruct (exec_post c Hwf) as (s' & m' & [[rk a] b] & He & Hli & HP).
   unfold run_C14. rewrite He. apply post_ok; assumption.
 Qed.
+
+(* ------------------------------------------------------------------ 7. Prop-level readings *)
+(* bytes the reader gave out / the writer accepted (what the harness observes) *)
+Definition moved_of (c : case14) (s : sstream) : N :=
+  if is_read (c_op c) then nlen (c_src c) - nlen (k_src s) else nlen (k_sink s).
+
+Lemma exec_facts c s m rk a b : wf14 c = true -> exec14 c = Val ((s, m), (rk, a, b)) ->
+  LogInv (c_script c) s
+  /\ GMoved (is_read (c_op c)) (c_target c) (stream0 c) (c_mem c) (c_addr c) (moved_of c s) s m
+  /\ LogRes (k_done s) rk
+  /\ (if is_exact (c_op c)
+      then rk <> 0 /\ (existsb is_hard (k_done s) = false -> judged (c_target c) (c_addr c) (c_count c) ->
+                       (rk = 1 <-> moved_of c s = c_count c))
+      else rk <> 1 /\ (rk = 0 -> a = moved_of c s)).
+Proof.
+  intros Hwf He. destruct (exec_post c Hwf) as (s' & m' & rc & He' & Hli & (k & HG & HL & HR)).
+  rewrite He in He'. inversion He'; subst s' m' rc. cbn [rk_of fst snd] in *.
+  assert (Hk : moved_of c s = k).
+  { unfold moved_of. destruct (is_read (c_op c)); cbn [GMoved] in HG.
+    - destruct HG as (A1 & A2 & _). rewrite A1, nlen_ndrop. cbn [stream0 k_src] in *. lia.
+    - destruct HG as (bs & A1 & A2 & _). rewrite A2. cbn [stream0 k_sink app].
+      apply flat_read_length in A1. unfold nlen. lia. }
+  rewrite Hk. auto.
+Qed.
+
+Definition idx_inj (t : target) : Prop :=
+  forall a1 a2 j, idx_of t a1 = Some j -> idx_of t a2 = Some j -> a1 = a2.
+
+Lemma flat_write_nth t : idx_inj t -> forall bs m a m', flat_write t m a bs = Some m' ->
+  nlen m' = nlen m
+  /\ (forall i, i < nlen bs -> exists j, idx_of t (a + i) = Some j /\
+                                      nth_error m' (N.to_nat j) = nth_error bs (N.to_nat i))
+  /\ (forall j, (forall i, i < nlen bs -> idx_of t (a + i) <> Some j) ->
+                nth_error m' (N.to_nat j) = nth_error m (N.to_nat j)).
+Proof.
+  intros Hinj. induction bs as [|b rest IH]; intros m a m' H; cbn [flat_write] in H.
+  - inversion H; subst. split; [reflexivity|]. split; [intros i Hi; cbn in Hi; lia|auto].
+  - destruct (idx_of t a) as [j0|] eqn:E0; [|discriminate].
+    destruct (N.ltb_spec j0 (nlen m)) as [Hj0|]; [|discriminate].
+    assert (Hl1 : nlen (mem_write m j0 [b]) = nlen m) by (apply mem_write_length; cbn; lia).
+    destruct (IH _ _ _ H) as (A & B & C). rewrite nlen_cons.
+    assert (Hw : forall j, nth_error (mem_write m j0 [b]) (N.to_nat j) =
+                           if j =? j0 then Some b else nth_error m (N.to_nat j)).
+    { intros j. rewrite mem_write_nth by (cbn; lia). change (nlen [b]) with 1.
+      destruct (N.eqb_spec j j0) as [->|Hne].
+      - destruct (N.leb_spec j0 j0); [|lia]. destruct (N.ltb_spec j0 (j0 + 1)); [|lia]. cbn [andb].
+        rewrite N.sub_diag. reflexivity.
+      - destruct (N.leb_spec j0 j); destruct (N.ltb_spec j (j0 + 1)); cbn [andb]; try reflexivity. lia. }
+    split; [lia|]. split.
+    + intros i Hi. destruct (N.eq_dec i 0) as [->|Hne].
+      * exists j0. rewrite N.add_0_r. split; [exact E0|]. cbn [N.to_nat nth_error].
+        rewrite C.
+        -- rewrite Hw, N.eqb_refl. reflexivity.
+        -- intros i Hi' E. assert (a + 1 + i = a) by (eapply Hinj; eassumption). lia.
+      * destruct (B (i - 1)) as (j & E1 & E2); [lia|]. exists j.
+        replace (a + i) with (a + 1 + (i - 1)) by lia. split; [exact E1|]. rewrite E2.
+        replace (N.to_nat i) with (S (N.to_nat (i - 1))) by lia. reflexivity.
+    + intros j Hj. rewrite C.
+      * rewrite Hw. destruct (N.eqb_spec j j0) as [->|]; [|reflexivity].
+        exfalso. apply (Hj 0); [lia|]. rewrite N.add_0_r. exact E0.
+      * intros i Hi. replace (a + 1 + i) with (a + (1 + i)) by lia. apply Hj. lia.
+Qed.
+Lemma flat_read_nth t m : forall n a l, flat_read t m a n = Some l ->
+  forall i, (i < n)%nat -> exists j, idx_of t (a + N.of_nat i) = Some j /\ nth_error l i = nth_error m (N.to_nat j).
+Proof.
+  induction n as [|n IH]; intros a l H i Hi; [lia|]. cbn [flat_read] in H.
+  destruct (idx_of t a) as [j0|] eqn:E0; [|discriminate].
+  destruct (nth_error m (N.to_nat j0)) as [b|] eqn:Eb; [|discriminate].
+  destruct (flat_read t m (a + 1) n) as [l'|] eqn:El; [|discriminate]. inversion H; subst l.
+  destruct i as [|i].
+  - exists j0. rewrite N.add_0_r. split; [exact E0|]. cbn [nth_error]. auto.
+  - destruct (IH _ _ El i) as (j & E1 & E2); [lia|]. exists j.
+    replace (a + N.of_nat (S i)) with (a + 1 + N.of_nat i) by lia. auto.
+Qed.
+
+Lemma wf_windows : forall L moff r1 r2, wf_regions L moff = true -> In r1 L -> In r2 L ->
+  r1 = r2 \/ g_moff r1 + g_len r1 <= g_moff r2 \/ g_moff r2 + g_len r2 <= g_moff r1.
+Proof.
+  induction L as [|r0 t IH]; intros moff r1 r2 Hw H1 H2; [destruct H1|].
+  pose proof Hw as Hw0. cbn [wf_regions] in Hw. rewrite !andb_true_iff in Hw. destruct Hw as [[[[A B] C] D] E].
+  apply N.eqb_eq in C.
+  destruct H1 as [<-|H1]; destruct H2 as [<-|H2]; auto.
+  - destruct (wf_regions_in _ _ _ E H2) as (_ & _ & F & _). right. left. lia.
+  - destruct (wf_regions_in _ _ _ E H1) as (_ & _ & F & _). right. right. lia.
+  - eapply IH; eauto.
+Qed.
+Lemma idx_inj_wf c : wf14 c = true -> idx_inj (c_target c).
+Proof.
+  intros Hwf. unfold wf14 in Hwf. rewrite !andb_true_iff in Hwf. destruct Hwf as [[[Ht _] _] _].
+  intros a1 a2 j H1 H2. destruct (c_target c) as [soff slen|r|L]; cbn [idx_of] in *.
+  - destruct (a1 <? slen); [|discriminate]. destruct (a2 <? slen); [|discriminate].
+    inversion H1. inversion H2. lia.
+  - destruct (a1 <? g_len r); [|discriminate]. destruct (a2 <? g_len r); [|discriminate].
+    inversion H1. inversion H2. lia.
+  - rewrite andb_true_iff in Ht. destruct Ht as [Hw _].
+    destruct (find (fun r => contains r a1) L) as [r1|] eqn:F1; [|discriminate].
+    destruct (find (fun r => contains r a2) L) as [r2|] eqn:F2; [|discriminate].
+    apply find_some in F1, F2. destruct F1 as [I1 C1]. destruct F2 as [I2 C2].
+    apply contains_iff in C1, C2. inversion H1. inversion H2.
+    destruct (wf_windows L 0 r1 r2 Hw I1 I2) as [->|[D|D]]; lia.
+Qed.
+
+Lemma terminates_lemma : forall c, wf14 c = true -> exists s m rc, exec14 c = Val ((s, m), rc).
+Proof. intros c Hwf. destruct (exec_post c Hwf) as (s & m & rc & He & _). eauto. Qed.
+
+Lemma eintr_never_reported_lemma : forall c s m rk a b, wf14 c = true -> exec14 c = Val ((s, m), (rk, a, b)) ->
+  rk <> 4 /\ last (k_done s) Zero <> Eintr.
+Proof.
+  intros c s m rk a b Hwf He. destruct (exec_facts c s m rk a b Hwf He) as (_ & _ & (H4 & H5 & _) & _).
+  split; [exact H4|]. intros E. rewrite E in H5. discriminate.
+Qed.
+
+Lemma harderr_reported_lemma : forall c s m rk a b, wf14 c = true -> exec14 c = Val ((s, m), (rk, a, b)) ->
+  (In HardErr (k_done s) <-> rk = 5)
+  /\ (rk = 5 -> last (k_done s) Zero = HardErr /\ ~ In HardErr (removelast (k_done s))).
+Proof.
+  intros c s m rk a b Hwf He. destruct (exec_facts c s m rk a b Hwf He) as (_ & _ & (H4 & H5 & H6) & _).
+  assert (Hin : forall d, In HardErr d <-> existsb is_hard d = true).
+  { intros d. rewrite existsb_exists. split.
+    - intros H. exists HardErr. auto.
+    - intros (x & Hx & Hh). destruct x; try discriminate. exact Hx. }
+  destruct (existsb is_hard (k_done s)) eqn:E.
+  - destruct H6 as [-> H6]. split; [rewrite Hin; tauto|]. intros _. split.
+    + apply Hin in E. clear - E H6 Hin.
+      destruct (k_done s) as [|x d] using rev_ind; [destruct E|].
+      rewrite removelast_snoc in H6. rewrite last_snoc. apply in_app_or in E. destruct E as [E|[E|[]]]; [|auto].
+      apply Hin in E. congruence.
+    + rewrite Hin. congruence.
+  - split; [rewrite Hin; split; [congruence|contradiction]|]. intros; contradiction.
+Qed.
+
+Lemma calls_are_script_lemma : forall c s m rc, wf14 c = true -> exec14 c = Val ((s, m), rc) ->
+  k_done s = calls_made (c_script c) (nlen (k_done s)).
+Proof.
+  intros c s m [[rk a] b] Hwf He. destruct (exec_facts c s m rk a b Hwf He) as (Hli & _).
+  symmetry. apply LogInv_calls_made. exact Hli.
+Qed.
+
+Lemma consumed_is_stored_lemma : forall c s m rc, wf14 c = true -> is_read (c_op c) = true ->
+  exec14 c = Val ((s, m), rc) ->
+  let k := moved_of c s in
+  k_src s = ndrop k (c_src c) /\ k <= nlen (c_src c) /\ nlen m = nlen (c_mem c)
+  /\ (forall i, i < k -> exists j, idx_of (c_target c) (c_addr c + i) = Some j /\
+                                nth_error m (N.to_nat j) = nth_error (c_src c) (N.to_nat i))
+  /\ (forall j, (forall i, i < k -> idx_of (c_target c) (c_addr c + i) <> Some j) ->
+                nth_error m (N.to_nat j) = nth_error (c_mem c) (N.to_nat j)).
+Proof.
+  intros c s m [[rk a] b] Hwf Hr He k. destruct (exec_facts c s m rk a b Hwf He) as (_ & HG & _).
+  fold k in HG. rewrite Hr in HG. cbn [GMoved stream0 k_src k_sink] in HG. destruct HG as (A1 & A2 & A3 & A4).
+  destruct (flat_write_nth _ (idx_inj_wf c Hwf) _ _ _ _ A3) as (B1 & B2 & B3).
+  rewrite nlen_ntake in B2, B3. replace (N.min k (nlen (c_src c))) with k in * by lia.
+  split; [exact A1|]. split; [exact A2|]. split; [exact B1|]. split; [|exact B3].
+  intros i Hi. destruct (B2 i Hi) as (j & E1 & E2). exists j. split; [exact E1|]. rewrite E2.
+  unfold ntake. rewrite nth_error_firstn_c. destruct (Nat.ltb_spec (N.to_nat i) (N.to_nat k)); [reflexivity|lia].
+Qed.
+
+Lemma handed_is_next_lemma : forall c s m rc, wf14 c = true -> is_read (c_op c) = false ->
+  exec14 c = Val ((s, m), rc) ->
+  let k := moved_of c s in
+  m = c_mem c /\ nlen (k_sink s) = k
+  /\ (forall i, i < k -> exists j, idx_of (c_target c) (c_addr c + i) = Some j /\
+                                nth_error (k_sink s) (N.to_nat i) = nth_error (c_mem c) (N.to_nat j)).
+Proof.
+  intros c s m [[rk a] b] Hwf Hr He k. destruct (exec_facts c s m rk a b Hwf He) as (_ & HG & _).
+  fold k in HG. rewrite Hr in HG. cbn [GMoved stream0 k_src k_sink app] in HG.
+  destruct HG as (bs & A1 & A2 & A3 & A4). split; [exact A3|].
+  split; [unfold k, moved_of; rewrite Hr; reflexivity|].
+  intros i Hi. destruct (flat_read_nth _ _ _ _ _ A1 (N.to_nat i)) as (j & E1 & E2); [lia|].
+  rewrite N2Nat.id in E1. exists j. split; [exact E1|]. rewrite A2. exact E2.
+Qed.
+
+Lemma exact_ok_iff_full_lemma : forall c s m rk a b, wf14 c = true -> is_exact (c_op c) = true ->
+  exec14 c = Val ((s, m), (rk, a, b)) ->
+  rk <> 0 /\ (~ In HardErr (k_done s) -> (0 < c_count c \/ idx_of (c_target c) (c_addr c) <> None) ->
+              (rk = 1 <-> moved_of c s = c_count c)).
+Proof.
+  intros c s m rk a b Hwf Hx He. destruct (exec_facts c s m rk a b Hwf He) as (_ & _ & _ & HR).
+  rewrite Hx in HR. destruct HR as [H0 Hiff]. split; [exact H0|]. intros Hn Hj. apply Hiff; [|exact Hj].
+  destruct (existsb is_hard (k_done s)) eqn:E; [|reflexivity]. exfalso. apply Hn.
+  apply existsb_exists in E. destruct E as (x & Hx1 & Hx2). destruct x; try discriminate. exact Hx1.
+Qed.
+
+Lemma upto_returns_moved_lemma : forall c s m rk a b, wf14 c = true -> is_exact (c_op c) = false ->
+  exec14 c = Val ((s, m), (rk, a, b)) -> rk <> 1 /\ (rk = 0 -> a = moved_of c s).
+Proof.
+  intros c s m rk a b Hwf Hx He. destruct (exec_facts c s m rk a b Hwf He) as (_ & _ & _ & HR).
+  rewrite Hx in HR. exact HR.
+Qed.
+
+Lemma frame_lemma : forall c s m rc, wf14 c = true -> exec14 c = Val ((s, m), rc) ->
+  forall j, (forall i, i < moved_of c s -> idx_of (c_target c) (c_addr c + i) <> Some j) ->
+            nth_error m (N.to_nat j) = nth_error (c_mem c) (N.to_nat j).
+Proof.
+  intros c s m rc Hwf He j Hj. destruct (is_read (c_op c)) eqn:Hr.
+  - destruct (consumed_is_stored_lemma c s m rc Hwf Hr He) as (_ & _ & _ & _ & F). apply F. exact Hj.
+  - destruct (handed_is_next_lemma c s m rc Hwf Hr He) as (-> & _). reflexivity.
+Qed.
